@@ -194,6 +194,8 @@ func runEP(ep, name string, content []byte) result {
 
 const wallFactor = 100
 
+var maxStackFlag int
+
 // cpuTime: user+system CPU time of this process so far.
 func cpuTime() time.Duration {
 	var ru syscall.Rusage
@@ -358,6 +360,16 @@ func runBatch(in, out string, start, skip int, scale float64) {
 				continue
 			}
 			emit("B " + id + " " + ep)
+			if maxStackFlag == 0 {
+				// an input of up to 2 KiB gets a 16 MB goroutine stack (8 KiB of stack per input byte: one recursion
+				// level of the parsers/checker costs about 2 KiB): unbounded recursion on a tiny input then ends in
+				// "stack overflow" within the time limit instead of crawling towards Go's default of 1 GB
+				if len(content) <= 2<<10 {
+					debug.SetMaxStack(16 << 20)
+				} else {
+					debug.SetMaxStack(1000000000)
+				}
+			}
 			lim := limitFor(ep, len(content), scale)
 			done := make(chan result, 1)
 			t0 := time.Now()
@@ -595,6 +607,7 @@ func main() {
 		if sc <= 0 {
 			sc = 1
 		}
+		maxStackFlag = *maxstack
 		if *maxstack > 0 {
 			debug.SetMaxStack(*maxstack << 20)
 		}
